@@ -452,6 +452,39 @@ func headerSites(c *ref.Container, file []byte) []hsite {
 
 var schemaTokens = []string{`"fixed"`, `"array"`, `"map"`, `"enum"`, `"record"`, `"union"`, `"null"`, `"long"`, `"int"`, `"string"`, `"bytes"`, `"boolean"`, `"float"`, `"double"`, `"type"`, `"items"`, `"values"`, `"fields"`, `"size"`, `"name"`, `[`, `]`, `{`, `}`, `:`, `,`, `-1`, `99999999999999999999`, `1e309`, `null`, `true`, `""`, `"\ud800"`, `{"type":"fixed","name":"q","size":-5}`, `{"type":"fixed","name":"q","size":4294967296}`, `{"type":"array"}`, `{"type":"map"}`, `{"type":"record"}`, `{"type":"fixed"}`, `[[]]`, `[[["long"]]]`, `{"type":{"type":"long"}}`}
 
+var retypeNames = []string{"null", "boolean", "int", "long", "float", "double", "bytes", "string", "fixed", "array", "map", "enum", "record", "union", "date"}
+
+// typeTokenSites lists the offsets of every quoted primitive type name in
+// schema text (the places where a field's type can be swapped for another).
+func typeTokenSites(js string) [][2]int {
+	var out [][2]int
+	for i := 0; i < len(js); i++ {
+		if js[i] != '"' {
+			continue
+		}
+		j := i + 1
+		for j < len(js) && js[j] != '"' {
+			j++
+		}
+		if j >= len(js) {
+			break
+		}
+		switch js[i+1 : j] {
+		case "null", "boolean", "int", "long", "float", "double", "bytes", "string":
+			// only when used as a value (after ':' or inside a union), not as a key
+			k := j + 1
+			for k < len(js) && js[k] == ' ' {
+				k++
+			}
+			if k >= len(js) || js[k] != ':' {
+				out = append(out, [2]int{i, j + 1})
+			}
+		}
+		i = j
+	}
+	return out
+}
+
 // damageSchema applies one token-level mutation to schema JSON text.
 func damageSchema(js string, f C06Fault) (string, string) {
 	if len(js) == 0 {
@@ -459,6 +492,14 @@ func damageSchema(js string, f C06Fault) (string, string) {
 	}
 	b := []byte(js)
 	pos := int(f.Off) % len(b)
+	if f.Class == "retype" || f.Val%6 == 5 {
+		sites := typeTokenSites(js)
+		if len(sites) > 0 {
+			st := sites[int(f.Off)%len(sites)]
+			nn := retypeNames[int(f.Site)%len(retypeNames)]
+			return js[:st[0]] + `"` + nn + `"` + js[st[1]:], "schema:retype:" + js[st[0]+1:st[1]-1] + "->" + nn
+		}
+	}
 	switch f.Val % 5 {
 	case 0: // replace the quoted token at/after pos
 		i := pos
@@ -526,7 +567,7 @@ func c06Call(f func() (int, error)) (o c06Outcome) {
 	return o
 }
 
-func c06ReadFile(target reflect.Type, rd *DiskReader) (int, error) {
+func c06ReadFile(target reflect.Type, rd avro.Reader) (int, error) {
 	n := 0
 	err := avro.ReadFile(rd, reflect.New(target).Elem().Interface(), func(val unsafe.Pointer, rb *avro.ResourceBank) error {
 		n++
@@ -848,6 +889,50 @@ func c06Region(a *c06Artifact, off, n int) string {
 	return "tail"
 }
 
+// c06EnumCases enumerates every (field site x replacement class x variant),
+// every (schema type token x replacement type) and every (header varint x
+// class) of an artifact. It is a pure function of the plan.
+func c06EnumCases(a *c06Artifact, pl *C06Plan) []C06Case {
+	var cases []C06Case
+	for j, b := range a.blocks {
+		for si, s := range b.sites {
+			classes := bodyClasses
+			if isVarSite(s.Kind) {
+				classes = varClasses
+			}
+			for ci, cls := range classes {
+				for _, raw := range []bool{false, true} {
+					if raw && a.codec != "null" && a.codec != "none" {
+						continue
+					}
+					cases = append(cases, C06Case{Faults: []C06Fault{{Kind: "field", Block: j, Site: uint32(si), Class: cls, Raw: raw, Val: si*7 + ci}}})
+				}
+			}
+		}
+	}
+	for si := range typeTokenSites(a.schemaJSON) {
+		for ni := range retypeNames {
+			cases = append(cases, C06Case{Faults: []C06Fault{{Kind: "schema", Class: "retype", Off: uint32(si), Site: uint32(ni)}}})
+		}
+	}
+	hs := headerSites(a.cont, a.file)
+	for hi := range hs {
+		for _, cls := range varClasses {
+			cases = append(cases, C06Case{Faults: []C06Fault{{Kind: "hfield", Site: uint32(hi), Class: cls}}})
+		}
+	}
+	if ecap := max(pl.EnumCap, 200); len(cases) > ecap {
+		// keep an even spread over sites rather than a prefix
+		step := float64(len(cases)) / float64(ecap)
+		var kept []C06Case
+		for i := 0; i < ecap; i++ {
+			kept = append(kept, cases[int(float64(i)*step)])
+		}
+		cases = kept
+	}
+	return cases
+}
+
 func (c06Prop) CPUBudget() time.Duration { return 8 * time.Second }
 
 // zeroWidthPossible reports whether items that occupy no bytes on the wire can
@@ -862,7 +947,8 @@ func c06ZeroWidthPossible(pl *C06Plan, k int) bool {
 	if pl.Src == "file" && pl.File.Type == "Empty" {
 		return true
 	}
-	if !pl.Enum && k >= 0 && k < len(pl.Cases) {
+	if cases := c06Cases(pl); k >= 0 && k < len(cases) {
+		pl = &C06Plan{Src: pl.Src, File: pl.File, Wire: pl.Wire, WSeed: pl.WSeed, WN: pl.WN, WCodec: pl.WCodec, WParts: pl.WParts, Chunks: pl.Chunks, Cases: cases}
 		for _, f := range pl.Cases[k].Faults {
 			if f.Kind == "schema" {
 				return true
@@ -898,20 +984,42 @@ func (c06Prop) ClassifyDeath(p *Plan, k int) string {
 }
 
 func (c06Prop) WithoutCase(p *Plan, k int) *Plan {
-	if p.C06 == nil || p.C06.Enum || k < 0 || k >= len(p.C06.Cases) || len(p.C06.Cases) <= 1 {
+	if p.C06 == nil {
+		return nil
+	}
+	cases := c06Cases(p.C06)
+	if k < 0 || k >= len(cases) || len(cases) <= 1 {
 		return nil
 	}
 	q := p.clone()
-	q.C06.Cases = append(append([]C06Case{}, p.C06.Cases[:k]...), p.C06.Cases[k+1:]...)
+	q.C06.Enum = false
+	q.C06.Cases = append(append([]C06Case{}, cases[:k]...), cases[k+1:]...)
 	return q
 }
 
+// c06Cases returns the plan's case list, enumerating it if necessary.
+func c06Cases(pl *C06Plan) []C06Case {
+	if !pl.Enum {
+		return pl.Cases
+	}
+	a, err := c06BuildArtifact(pl)
+	if err != nil {
+		return nil
+	}
+	return c06EnumCases(a, pl)
+}
+
 func (c06Prop) NarrowCase(p *Plan, k int) *Plan {
-	if p.C06 == nil || p.C06.Enum || k < 0 || k >= len(p.C06.Cases) {
+	if p.C06 == nil {
+		return nil
+	}
+	cases := c06Cases(p.C06)
+	if k < 0 || k >= len(cases) {
 		return nil
 	}
 	q := p.clone()
-	q.C06.Cases = []C06Case{p.C06.Cases[k]}
+	q.C06.Enum = false
+	q.C06.Cases = []C06Case{cases[k]}
 	return q
 }
 
@@ -945,38 +1053,7 @@ func (c06Prop) Execute(p *Plan, run *Run) any {
 
 	cases := pl.Cases
 	if pl.Enum {
-		cases = nil
-		for j, b := range a.blocks {
-			for si, s := range b.sites {
-				classes := bodyClasses
-				if isVarSite(s.Kind) {
-					classes = varClasses
-				}
-				for ci, cls := range classes {
-					for _, raw := range []bool{false, true} {
-						if raw && a.codec != "null" && a.codec != "none" {
-							continue
-						}
-						cases = append(cases, C06Case{Faults: []C06Fault{{Kind: "field", Block: j, Site: uint32(si), Class: cls, Raw: raw, Val: si*7 + ci}}})
-					}
-				}
-			}
-		}
-		hs := headerSites(a.cont, a.file)
-		for hi := range hs {
-			for _, cls := range varClasses {
-				cases = append(cases, C06Case{Faults: []C06Fault{{Kind: "hfield", Site: uint32(hi), Class: cls}}})
-			}
-		}
-		if ecap := max(pl.EnumCap, 200); len(cases) > ecap {
-			// keep an even spread over sites rather than a prefix
-			step := float64(len(cases)) / float64(ecap)
-			var kept []C06Case
-			for i := 0; i < ecap; i++ {
-				kept = append(kept, cases[int(float64(i)*step)])
-			}
-			cases = kept
-		}
+		cases = c06EnumCases(a, pl)
 		run.Probes.Inc("enumerated-artifacts")
 	}
 
@@ -1039,11 +1116,17 @@ func (c06Prop) Execute(p *Plan, run *Run) any {
 		}
 		run.Log.Add("case %d len=%d", k, len(d.file))
 		for _, t := range targets {
-			rd := NewDiskReader(d.file, pl.Chunks)
-			rd.ErrAt = d.rerr
-			o := c06Call(func() (int, error) { return c06ReadFile(t.typ, rd) })
-			if d.rerr >= 0 && rd.ErrFired {
-				run.Faults.Inc("R-err(k)")
+			var o c06Outcome
+			if d.rerr < 0 && pl.Chunks.Kind != "" {
+				r := openReader(d.file, pl.Chunks)
+				o = c06Call(func() (int, error) { return c06ReadFile(t.typ, r) })
+			} else {
+				rd := NewDiskReader(d.file, pl.Chunks)
+				rd.ErrAt = d.rerr
+				o = c06Call(func() (int, error) { return c06ReadFile(t.typ, rd) })
+				if d.rerr >= 0 && rd.ErrFired {
+					run.Faults.Inc("R-err(k)")
+				}
 			}
 			if !judge(k, c, "ReadFile", t.name, &d, o, len(d.file)) {
 				return nil
@@ -1105,12 +1188,7 @@ func (c06Prop) Execute(p *Plan, run *Run) any {
 
 // kIndexOf maps an executed case index to an index into pl.Cases (none for
 // enumerated plans).
-func kIndexOf(pl *C06Plan, k int) int {
-	if pl.Enum {
-		return -1
-	}
-	return k
-}
+func kIndexOf(pl *C06Plan, k int) int { return k }
 
 func faultKindOf(kd string) string {
 	for i := 0; i < len(kd); i++ {
